@@ -92,6 +92,15 @@ class SplitMix64:
         return SplitMix64(self.next())
 
 
+def load_factor():
+    """Time limits are sized for an idle 16-core machine; on an oversubscribed one (many checks at once) they
+    stretch with the run-queue length so that starvation is not mistaken for a hang.  1 <= factor <= 6."""
+    try:
+        return min(6.0, max(1.0, os.getloadavg()[0] / max(1, os.cpu_count() or 1)))
+    except OSError:
+        return 1.0
+
+
 class Check:
     def __init__(self, pid, tier, seed, mod):
         self.pid = pid
@@ -322,6 +331,7 @@ class Check:
         return bins
 
     def run_bin(self, binary, args=(), stdin_path=None, stdin_text=None, env=None, timeout=600, mem_gb=None):
+        timeout = timeout * load_factor()
         e = go_env()
         if env:
             e.update(env)
